@@ -28,6 +28,11 @@ def _clean(o):
 
 
 def write(pid, tier, seed, coverage, assumptions, wall, violations):
+    global DIR
+    if os.environ.get("AQV_REPO"):
+        # a run redirected to a scratch worktree (trying a seeded change) must not overwrite the
+        # evidence of the real tree
+        DIR = os.path.join(proto.VERIF, ".cache", "evidence_scratch")
     os.makedirs(DIR, exist_ok=True)
     coverage = dict(coverage)
     if int(coverage.get("discharged", 0) or 0) < 1 or int(coverage.get("obligations", 0) or 0) < 1:
